@@ -117,14 +117,17 @@ def addStats (s : Option Stats) (c : Chunk) (mapped : Bool) : Stats :=
   if mapped then { st with mapped := st.mapped + 1 } else { st with unmapped := st.unmapped + 1 }
 
 /-- the part of `Add` that works on `ref := &i.Refs[rid]`; returns the new reference index, the new
-`LastRecord`, whether the bin existed and the result.  On the position-order error the bin has
-already been recorded (as in the code). -/
+`LastRecord`, whether the index may keep its `IsSorted` flag (the bin existed, and — fixes/C15-3 — the new
+tiles leave no gap of empty tiles behind the tiles recorded so far) and the result.  On the
+position-order error the bin has already been recorded (as in the code). -/
 def addRef (ref : RefIndex) (last : Int) (r : Rec) : RefIndex × Int × Bool × AddRes :=
   let nb := addBin ref.bins r.bin r.chunk
   if r.start < last then ({ ref with bins := nb.1 }, last, nb.2, .errPosOrder)
   else
     ({ bins := nb.1, stats := some (addStats ref.stats r.chunk r.mapped),
-       intervals := addTiles ref.intervals r.start r.stop r.chunk.b }, r.start, nb.2, .ok)
+       intervals := addTiles ref.intervals r.start r.stop r.chunk.b }, r.start,
+     nb.2 && !(decide (lastTile r.start r.stop ≥ ref.intervals.length) && decide (tileOf r.start > ref.intervals.length)),
+     .ok)
 
 /-- the value behind `i.Unmapped` after `if i.Unmapped == nil { i.Unmapped = new(uint64) }` -/
 def umCount : Option Nat → Nat
